@@ -2,6 +2,7 @@ package main
 
 import (
 	"fmt"
+	"go/token"
 	"go/types"
 	"sort"
 	"strings"
@@ -344,13 +345,21 @@ func (f *Frame) lookupVar(name string, st *state, li *loopInfo, edgeFrom *ssa.Ba
 			if b == at && atIdx >= 0 && idx >= atIdx {
 				continue
 			}
-			if _, defined := f.vals[d.X]; !defined {
-				if _, isConst := d.X.(*ssa.Const); !isConst {
+			dx, dAddr := d.X, d.IsAddr
+			// a variable that lives in a memory cell (captured by a closure, address taken): the debug reference names
+			// the value stored or loaded at that point, which is stale afterwards - read the cell in the current state
+			if a := f.allocOf(d.Object()); a != nil && !dAddr {
+				if _, defined := f.vals[a]; defined {
+					dx, dAddr = a, true
+				}
+			}
+			if _, defined := f.vals[dx]; !defined {
+				if _, isConst := dx.(*ssa.Const); !isConst {
 					continue
 				}
 			}
 			if bestBlock == nil || bestBlock.Dominates(b) && (b != bestBlock || idx > bestIdx) {
-				best, bestAddr, bestBlock, bestIdx = d.X, d.IsAddr, b, idx
+				best, bestAddr, bestBlock, bestIdx = dx, dAddr, b, idx
 			}
 		}
 	}
@@ -364,6 +373,27 @@ func (f *Frame) lookupVar(name string, st *state, li *loopInfo, edgeFrom *ssa.Ba
 		return v, true
 	}
 	return Val{}, false
+}
+
+// allocOf returns the memory cell of a source variable, if it has one.
+func (f *Frame) allocOf(obj types.Object) *ssa.Alloc {
+	if obj == nil || !obj.Pos().IsValid() {
+		return nil
+	}
+	if f.allocs == nil {
+		f.allocs = map[token.Pos]*ssa.Alloc{}
+		for _, b := range f.fn.Blocks {
+			for _, ins := range b.Instrs {
+				if a, ok := ins.(*ssa.Alloc); ok && a.Pos().IsValid() && a.Comment != "" {
+					f.allocs[a.Pos()] = a
+				}
+			}
+		}
+	}
+	if a := f.allocs[obj.Pos()]; a != nil && a.Comment == obj.Name() {
+		return a
+	}
+	return nil
 }
 
 func (f *Frame) pkgTypes() *types.Package {
